@@ -13,6 +13,8 @@ from __future__ import annotations
 
 import itertools
 import json
+
+import common
 from collections import Counter
 
 import numpy as np
@@ -396,7 +398,7 @@ def run(chk, replay=None):
         cases = [json.loads(open(replay).read())["case"]]
     else:
         cases = fixed_cases()
-        corpus = chk.case_dir.parents[2] / "corpus" / "C17"
+        corpus = common.CORPUS / "C17"
         for f in sorted(corpus.glob("*.json")):
             cases.append(json.loads(f.read_text())["case"])
         mult = 1 if chk.tier == "quick" else 20
